@@ -215,3 +215,124 @@ def rule_enum_surface(ctx):
                             (ein.split("::")[-1], vin, tok, table.get(vin)), fn.file, fn.line)
     res.require_floor(18 + 5 + 6 + 5)
     return res
+
+
+def arm_first_call(fn, start, pred, depth=40):
+    """follow straight-line code (calls, gotos, drops) from `start` to the first call satisfying pred"""
+    b = start
+    for _ in range(depth):
+        t = fn.blocks[b]["term"]
+        if t["k"] == "call":
+            if pred(t):
+                return t
+            if t["target"] is None:
+                return None
+            b = t["target"]
+        elif t["k"] in ("goto", "drop", "assert"):
+            b = t["target"]
+        else:
+            return None
+    return None
+
+
+INSTR_TRAIT = "axcut2backend::code::Instructions"
+SORT_METHOD = {"Equal": "equal", "NotEqual": "not_equal", "Less": "less", "LessOrEqual": "less_or_equal",
+               "Greater": "greater", "GreaterOrEqual": "greater_or_equal"}
+SORT_ZERO_METHOD = {"Equal": "zero", "NotEqual": "not_zero", "Less": "less_zero", "LessOrEqual": "less_or_equal_zero",
+                    "Greater": "greater_zero", "GreaterOrEqual": "greater_or_equal_zero"}
+OP_METHOD = {"Sum": "add", "Sub": "sub", "Prod": "mul", "Div": "div", "Rem": "rem"}
+
+
+def rule_enum_dispatch(ctx):
+    fx = ctx.fx
+    res = RuleResult("R-ENUM/dispatch", "backend-independent dispatch of axcut2backend: IfC::code_statement calls "
+                     "jump_label_if_<sort>[_zero] for (sort, snd = Some/None) with operands (fst, snd) in that order, "
+                     "Op::code_statement calls add/sub/mul/div/rem for Sum/Sub/Prod/Div/Rem with operands (target, fst, snd); "
+                     "extracted from the MIR discriminant switches (each arm's first Instructions call and the provenance of its arguments)")
+    from ..mir import Flow, op_root, place_fields
+    key = "<axcut::syntax::statements::ifc::IfC as axcut2backend::statements::code_statement::CodeStatement>::code_statement"
+    fn = Fn(fx.fn(key))
+    flow = Flow(fn)
+    maps = enum_maps(fx, fn, "axcut::syntax::statements::ifc::IfSort")
+    seen = 0
+
+    def var_field(t_call, ai):
+        """which field of self the ai-th temporary argument was computed from (via variable_temporary(.., self.<f>.id))"""
+        a = t_call["args"][ai]
+        r = op_root(a)
+        for o in flow.origins(r, ()):
+            if o[0] == "call":
+                vt = fn.term(o[1])
+                if vt.get("callee_name") == "variable_temporary":
+                    idarg = vt["args"][-1]
+                    rr = op_root(idarg)
+                    outs = set()
+                    for oo in flow.origins(rr, tuple(place_fields(idarg["pl"]))):
+                        if oo[0] == "arg":
+                            outs.add(".".join(oo[2]))
+                        elif oo[0] == "call":
+                            outs.add("call:" + str(oo[2]))
+                        else:
+                            outs.add(oo[0])
+                    return outs
+        return {"?"}
+    for bi, adt, m in maps:
+        t = fn.blocks[bi]["term"]
+        names = [v["name"] for v in fx.adts[adt]["variants"]]
+        arms = {names[val]: tb for val, tb in t["targets"] if val < len(names)}
+        calls = {}
+        for v, tb in arms.items():
+            calls[v] = arm_first_call(fn, tb, lambda tt: tt.get("callee_trait") == INSTR_TRAIT and (tt.get("callee_name") or "").startswith("jump_label_if"))
+        if not any(calls.values()):
+            continue        # the switch that builds the comment string
+        seen += 1
+        zero = all(c is None or c.get("callee_name", "").endswith("zero") for c in calls.values())
+        table = SORT_ZERO_METHOD if zero else SORT_METHOD
+        for v in names:
+            c = calls.get(v)
+            ikey = "IfC:%s:%s" % ("zero" if zero else "two", v)
+            want = "jump_label_if_" + table[v]
+            if c is None or c.get("callee_name") != want:
+                res.inst(ikey, fn.file, c["sp"]["line"] if c else fn.line, "violation")
+                res.violate(ikey, "IfSort::%s (%s form) dispatches to %s, expected %s" % (v, "zero" if zero else "two-operand", c.get("callee_name") if c else None, want),
+                            fn.file, c["sp"]["line"] if c else fn.line)
+                continue
+            f0 = var_field(c, 0)
+            ok = f0 == {"fst.id"}
+            if not zero:
+                f1 = var_field(c, 1)
+                ok = ok and all(x.startswith("snd") or x.startswith("call") or x == "0.id" for x in f1) and "fst.id" not in f1
+            if ok:
+                res.inst(ikey, c["sp"]["file"], c["sp"]["line"], "ok", want)
+            else:
+                res.inst(ikey, c["sp"]["file"], c["sp"]["line"], "violation")
+                res.violate(ikey, "%s is called with operands from %s%s, expected (fst%s)" % (want, sorted(f0), "" if zero else " and %s" % sorted(var_field(c, 1)), "" if zero else ", snd"),
+                            c["sp"]["file"], c["sp"]["line"])
+    if seen != 2:
+        raise AnalysisError("R-ENUM/dispatch: expected 2 dispatch switches in IfC::code_statement, found %d" % seen)
+    key = "<axcut::syntax::statements::op::Op as axcut2backend::statements::code_statement::CodeStatement>::code_statement"
+    fn = Fn(fx.fn(key))
+    flow = Flow(fn)
+    maps = enum_maps(fx, fn, "axcut::syntax::statements::op::BinOp")
+    if not maps:
+        raise AnalysisError("R-ENUM/dispatch: no BinOp switch in Op::code_statement")
+    bi, adt, m = maps[0]
+    t = fn.blocks[bi]["term"]
+    names = [v["name"] for v in fx.adts[adt]["variants"]]
+    arms = {names[val]: tb for val, tb in t["targets"] if val < len(names)}
+    for v in names:
+        c = arm_first_call(fn, arms[v], lambda tt: tt.get("callee_trait") == INSTR_TRAIT) if v in arms else None
+        ikey = "Op:%s" % v
+        want = OP_METHOD[v]
+        if c is None or c.get("callee_name") != want:
+            res.inst(ikey, fn.file, fn.line, "violation")
+            res.violate(ikey, "BinOp::%s dispatches to %s, expected %s" % (v, c.get("callee_name") if c else None, want), fn.file, c["sp"]["line"] if c else fn.line)
+            continue
+        srcs = [var_field(c, i) for i in range(3)]
+        if srcs == [{"var.id"}, {"fst.id"}, {"snd.id"}]:
+            res.inst(ikey, c["sp"]["file"], c["sp"]["line"], "ok", want + "(var, fst, snd)")
+        else:
+            res.inst(ikey, c["sp"]["file"], c["sp"]["line"], "violation")
+            res.violate(ikey, "%s is called with operands from %s, expected (var, fst, snd)" % (want, [sorted(x) for x in srcs]), c["sp"]["file"], c["sp"]["line"])
+    res.require_floor(17)
+    return res
